@@ -4,7 +4,7 @@ From RV Require Import Model.SstTable Proofs.C17_Codec.
 From Coq Require Import ZifyN ZifyNat ZifyBool.
 Open Scope N_scope.
 
-Lemma body_of_write_table es : body_of (write_table es) = ser_entries es.
+Lemma body_of_write_table tp es : body_of (write_table tp es) = ser_entries es.
 Proof. unfold body_of, write_table, ser_table. cbn [t_esize t_file]. apply firstn_blen. Qed.
 
 Lemma body_of_reopen t : body_of (reopen t) = body_of t.
@@ -19,11 +19,11 @@ Proof.
 Qed.
 
 (* ScanPrefix of a fresh table: exactly the entries whose key has the prefix, in order, tombstones included *)
-Theorem table_scan_is_filter es p :
-  Forall entry_ok es -> table_scan_prefix (write_table es) p = Some (scan_spec es p).
+Theorem table_scan_is_filter tp es p :
+  Forall entry_ok es -> table_scan_prefix (write_table tp es) p = Some (scan_spec es p).
 Proof.
   intros H. unfold table_scan_prefix. cbn [table_meta write_table t_meta].
-  change (body_of _) with (body_of (write_table es)).
+  change (body_of _) with (body_of (write_table tp es)).
   rewrite body_of_write_table, (parse_serialize es H). unfold scan_spec. rewrite filter_map_norm. reflexivity.
 Qed.
 
@@ -50,43 +50,43 @@ Proof.
   unfold blen at 1. rewrite Nat2N.id. apply rd_offsets_w. exact H.
 Qed.
 
-Lemma sample_u32 : forall l c, Forall (fun o => o < 4294967296) (sample c l).
+Lemma sample_u32 sp : forall l c, Forall (fun o => o < 4294967296) (sample sp c l).
 Proof.
   induction l as [|x l IH]; intros c; cbn [sample]; [constructor|].
   destruct c; [constructor; [apply u32_lt|apply IH]|apply IH].
 Qed.
 
-Lemma sample_len : forall l c, (length (sample c l) <= length l)%nat.
+Lemma sample_len sp : forall l c, (length (sample sp c l) <= length l)%nat.
 Proof.
   induction l as [|x l IH]; intros c; cbn [sample length]; [lia|].
-  destruct c; cbn [length]; [specialize (IH (index_spacing - 1)%nat)|specialize (IH c)]; lia.
+  destruct c; cbn [length]; [specialize (IH (sp - 1)%nat)|specialize (IH c)]; lia.
 Qed.
 
 Lemma entry_offsets_len : forall es o, length (entry_offsets o es) = length es.
 Proof. induction es as [|e es IH]; intros o; cbn [entry_offsets length]; [reflexivity|]. rewrite IH. reflexivity. Qed.
 
-Lemma index_of_ok es : blen (ser_entries es) < 4294967296 ->
-  Forall (fun o => o < 4294967296) (index_of es) /\ blen (index_of es) < 4294967296.
+Lemma index_of_ok tp es : blen (ser_entries es) < 4294967296 ->
+  Forall (fun o => o < 4294967296) (index_of tp es) /\ blen (index_of tp es) < 4294967296.
 Proof.
   intros H. split; [apply sample_u32|].
-  unfold index_of, blen. pose proof (sample_len (entry_offsets 0 es) 0) as H1. rewrite entry_offsets_len in H1.
+  unfold index_of, blen. pose proof (sample_len (tp_spacing tp) (entry_offsets 0 es) 0) as H1. rewrite entry_offsets_len in H1.
   pose proof (ser_entries_len es) as H2. unfold blen in H. lia.
 Qed.
 
 (* loadFooter on the file the writer produced gives back the writer's bloom filter and index, provided the bloom
    block round-trips (Proofs/C17_Bloom.v: bf_decode_encode with bloom_of_wf) *)
-Lemma load_footer_write_table es :
+Lemma load_footer_write_table tp es :
   blen (ser_entries es) < 4294967296 ->
-  (forall r, bf_decode (bf_encode (bloom_of es) ++ r) = Some (bloom_of es, r)) ->
-  load_footer (reopen (write_table es)) = Some (bloom_of es, index_of es).
+  (forall r, bf_decode (bf_encode (bloom_of tp es) ++ r) = Some (bloom_of tp es, r)) ->
+  load_footer (reopen (write_table tp es)) = Some (bloom_of tp es, index_of tp es).
 Proof.
   intros Hsz Hbf.
-  change (reopen (write_table es)) with
-    (mkT (ser_table es) (blen (ser_table es)) (blen (ser_entries es)) (first_key es) (last_key es)
+  change (reopen (write_table tp es)) with
+    (mkT (ser_table tp es) (blen (ser_table tp es)) (blen (ser_entries es)) (first_key es) (last_key es)
          (first_seq es) (max_seq es) None).
   unfold load_footer. cbn [t_size t_file].
-  set (body := ser_entries es). set (bfb := bf_encode (bloom_of es)). set (ixb := idx_encode (index_of es)).
-  assert (Hfile : ser_table es = (body ++ bfb ++ ixb) ++ (w_u64 (blen body) ++ w_u32 1)).
+  set (body := ser_entries es). set (bfb := bf_encode (bloom_of tp es)). set (ixb := idx_encode (index_of tp es)).
+  assert (Hfile : ser_table tp es = (body ++ bfb ++ ixb) ++ (w_u64 (blen body) ++ w_u32 1)).
   { unfold ser_table. fold body bfb ixb. rewrite <- !app_assoc. reflexivity. }
   rewrite Hfile.
   assert (Hlen : blen ((body ++ bfb ++ ixb) ++ w_u64 (blen body) ++ w_u32 1) = blen (body ++ bfb ++ ixb) + 12).
@@ -96,5 +96,5 @@ Proof.
   rewrite skipn_blen, rd_u64_wu64, u64_small by (fold body in Hsz; lia).
   replace (blen body <=? blen (body ++ bfb ++ ixb) + 12) with true by (rewrite blen_app; lia).
   rewrite <- !app_assoc, skipn_blen. unfold bfb. rewrite Hbf. unfold ixb.
-  destruct (index_of_ok es Hsz) as [Hi Hl]. rewrite (idx_decode_encode _ _ Hi Hl). reflexivity.
+  destruct (index_of_ok tp es Hsz) as [Hi Hl]. rewrite (idx_decode_encode _ _ Hi Hl). reflexivity.
 Qed.
